@@ -40,11 +40,14 @@ def quantile_clauses(c, x, w, n, qs, r, perm):
     tot = c.Sum(0, n, lambda j: w[pf(j)])
     C = lambda i: c.Sum(0, i + 1, lambda j: w[pf(j)]) / tot
     d = {}
+    # which segment a level falls into is a GUARD: evaluated exactly when replaying on floats (a tolerant <= would put a level that
+    # lies within the tolerance of a knot into two segments at once; the function is continuous there, the claim per segment is not)
+    le = (lambda a, b: a <= b) if c.mode == 'conc' else c.Le
     for k, qk in enumerate(qs):
         d['q%d_below_first' % k] = c.Implies(c.Lt(qk, C(0)), lambda k=k: c.Eq(r[k], X(0)))
-        d['q%d_above_last' % k] = c.Implies(c.Le(C(n - 1), qk), lambda k=k: c.Eq(r[k], X(n - 1)))
+        d['q%d_above_last' % k] = c.Implies(le(C(n - 1), qk), lambda k=k: c.Eq(r[k], X(n - 1)))
         d['q%d_between' % k] = c.ForallAdj(0, n - 1, lambda i, j, k=k, qk=qk: c.Implies(
-            c.And(c.Le(C(i), qk), c.Lt(qk, C(j))),
+            c.And(le(C(i), qk), c.Lt(qk, C(j))),
             lambda: c.Eq(r[k], X(i) + (qk - C(i)) * ((X(j) - X(i)) / (C(j) - C(i))))))
     return d
 
